@@ -19,7 +19,8 @@ EXPLANATION = (
     "multilinear forms + coefficient signs; alarms only with a concrete witness found by evaluating the extracted expressions on "
     "parameters <= 6), element counts and the Euler identity of closed shapes (R-COUNT), orientation/closedness of literal face "
     "tables (R-TABLE), positional forwarding of switches (R-RESOLVE) and dimensional homogeneity / dependence on radius and centre "
-    "(R-DIM). Manifoldness and geometry beyond these clauses are not decided.")
+    "(R-DIM); additionally corner arithmetic of quad / hexahedron_4pts / axis_aligned_cube as affine forms, the divisor of full-turn "
+    "angles, and the wiring of chain_of_vertices' loop switch. Manifoldness and geometry beyond these clauses are not decided.")
 
 RULES = {
     "C14-S1": "in a row-major grid generator the coefficient of every row-like loop variable (or `(i+k) % A`) in a stored vertex "
@@ -224,7 +225,7 @@ def s1_stride(ctx, grids):
                 ctx.check(ok, "C14-S1", ctx.site(key[0], fn, em.stmt),
                           f"vertex attribute key `{P}` is not the index `{want}` of the vertex appended in the same iteration",
                           wtxt, note=f"{key[1]}: attribute key = running vertex index")
-    _floor(ctx, "C14-S1", "C14-S1 stride sites", n_sites, 30)
+    _floor(ctx, "C14-S1", "C14-S1 stride sites", n_sites, 45)
     return failed
 
 
@@ -279,7 +280,7 @@ def n1_range(ctx, grids, failed_idx):
                 ctx.declare_unsupported(f"{key[1]}: index `{P}` not proved for all parameters; exhaustive for parameters <= {G.MAXPARAM} only")
             else:
                 ctx.fail("C14-N1", s, f"{em.kind} index of {key[1]} not found in a recognisable form", str(w))
-    _floor(ctx, "C14-N1", "C14-N1 index sites", n_sites, 150)
+    _floor(ctx, "C14-N1", "C14-N1 index sites", n_sites, 180)
 
 
 # ----------------------------------------------------------------------- C14-C1
